@@ -69,6 +69,11 @@ type Book { name: String%[2]s
 	"t2": {name: "t2", cols: []string{"Address", "User"}, rels: []relDef{{"Address", "User", "address", "user", true}},
 		sdl: func(idx string) string {
 			fk, fld := idx == "fk" || idx == "both", idx == "field" || idx == "both"
+			fkIdx := ix(fk)
+			if idx == "ufk" {
+				// a composite unique index led by the foreign key: it makes (key, s) unique, not the key alone
+				fkIdx = ` @index(unique: true, includes: [{field: "s"}])`
+			}
 			return fmt.Sprintf(`type Address { name: String%[2]s
  x: Int%[2]s
  s: Int
@@ -76,7 +81,7 @@ type Book { name: String%[2]s
 type User { name: String%[2]s
  x: Int%[2]s
  s: Int
- address: Address @primary%[1]s }`, ix(fk), ix(fld))
+ address: Address @primary%[1]s }`, fkIdx, ix(fld))
 		}},
 	"t3": {name: "t3", cols: []string{"Emp"}, rels: []relDef{{"Emp", "Emp", "boss", "reports", false}},
 		sdl: func(idx string) string {
@@ -554,6 +559,9 @@ var names = []string{"ann", "bob", "cat"}
 func genCase(r *vc.Rng, id uint64) []string {
 	tn := []string{"t1", "t1", "t2", "t3", "t5"}[r.Intn(5)]
 	idx := []string{"fk", "field", "both", "both"}[r.Intn(4)]
+	if tn == "t2" && r.Chance(1, 3) {
+		idx = "ufk"
+	}
 	tp := topos[tn]
 	lines := []string{fmt.Sprintf("case %d topo=%s idx=%s", id, tn, idx)}
 	xv := func() string {
